@@ -226,6 +226,31 @@ pub fn decorations(j: &J) -> Vec<Deco> {
                     with("type-aliases-qualified", true, &|x| x["aliases"] = json!(["other.ns.OldName", "Old2"]));
                     with("type-custom-scalar", true, &|x| x["x-custom"] = json!("v"));
                     with("type-custom-array", true, &|x| x["x-list"] = json!([1, 2.5, "s", false, null]));
+                    // attribute names that are structural elsewhere are plain metadata here
+                    if here.get("logicalType").is_none() {
+                        if ty == "fixed" {
+                            with("fixed-metadata-named-precision-scale", true, &|x| {
+                                x["precision"] = json!(9);
+                                x["scale"] = json!(2);
+                            });
+                            with("fixed-invalid-decimal-parameters", true, &|x| {
+                                x["logicalType"] = json!("decimal");
+                                x["precision"] = json!(1);
+                                x["scale"] = json!(5);
+                            });
+                            with("fixed-unknown-logical-type", true, &|x| {
+                                x["logicalType"] = json!("x-unknown");
+                                x["scale"] = json!(3);
+                            });
+                        } else {
+                            // not "irrelevant" for the canonical form: a literal reading of the [STRIP] rule keeps these keys
+                            with("type-metadata-named-size-items", false, &|x| {
+                                x["size"] = json!(4);
+                                x["items"] = json!("int");
+                                x["values"] = json!("long");
+                            });
+                        }
+                    }
                     if ty == "enum" && here.get("default").is_none() {
                         let first = here["symbols"][0].clone();
                         with("enum-default", true, &|x| x["default"] = first.clone());
